@@ -7,6 +7,15 @@ C03 — every INS sample carries the exact meta-proposal density and weight.
 Linear-domain model (Model/MetaProposal.lean); `D id k` is the density of proposal `k-1`
 (k = 0: the initial unit-cube prior draw, density 1) at the sample with identifier `id`.
 Theorems hold for every field of characteristic zero (ℚ — the executable instance — and ℝ).
+
+PARTIAL with respect to the property's wording: the clause "the stored per-proposal log-densities equal the saved
+proposals re-evaluated at that sample" enters as the consistency hypothesis `IterOk` on the inputs of an iteration
+(the densities are inputs of the model; that the real code stores exactly the re-evaluated densities is checked by
+the trace replay and the oracle, not proved); "every sample lies in the unit hypercube" and "the stored log-likelihood
+equals the model's value" are oracle-only; finalisation and checkpoint/resume do not change the bookkeeping in the
+model and are covered by replaying real runs (resume mid-run and after finalisation) only.  `W = U / Q` and
+`Q = mix w row` hold by definition of a stored sample; the content of the main theorem is that EVERY stored sample
+— old and new, in both sets — is in that form under the CURRENT weights and rows after every iteration.
 -/
 namespace NessaiVerif.C03
 open NessaiVerif.Meta
@@ -167,6 +176,58 @@ theorem Q_pos [LinearOrder K] [IsStrictOrderedRing K] (w0 : K) (ws : List K) (qs
   simp only [mix, mul_one]
   have := mix_ge_head ws qs hws hqs
   exact add_pos_of_pos_of_nonneg hw0 this
+
+/-- the first proposal keeps the initial population's count: a reachable state has `counts = c₀ :: _` with `c₀ > 0` -/
+theorem counts_head_pos (D : Nat → Nat → K) (hD0 : ∀ id, D id 0 = 1) (s : St K)
+    (h : Reachable D s) : ∃ c0 rest, s.counts = c0 :: rest ∧ 0 < c0 := by
+  induction h with
+  | pop useIid tr ii hne hsz =>
+    exact ⟨tr.length, [], rfl, List.length_pos_iff.mpr hne⟩
+  | iter s hs nAdd newT colT newI colI hin s' hok ih =>
+    obtain ⟨c0, rest, hc, hpos⟩ := ih
+    obtain ⟨s'', hok', _, hcounts, _⟩ := iteration_ok D s (meta_invariant D hD0 s hs) nAdd newT colT newI colI hin
+    rw [hok] at hok'
+    cases hok'
+    exact ⟨c0, rest ++ [nAdd], by rw [hcounts, hc]; rfl, hpos⟩
+
+/-- **The meta-proposal density of every stored sample is strictly positive** (so `log Q` is finite and
+`W = U / Q` is a genuine quotient, not the totalised `x / 0 = 0`), for non-negative proposal densities:
+`Q ≥ w₀ · q₀ = c₀ / total > 0` because the initial proposal has density 1 and a positive count. -/
+theorem reachable_Q_pos [LinearOrder K] [IsStrictOrderedRing K] (D : Nat → Nat → K)
+    (hD0 : ∀ id, D id 0 = 1) (hD : ∀ id k, 0 ≤ D id k) (s : St K) (h : Reachable D s) :
+    ∀ m ∈ s.train ++ s.iid, 0 < m.Q := by
+  have hinv := meta_invariant D hD0 s h
+  obtain ⟨c0, rest, hc, hpos⟩ := counts_head_pos D hD0 s h
+  intro m hm
+  obtain ⟨hrow, hQ, _⟩ := every_sample_exact D hD0 s h m hm
+  have htot : (0 : K) < ((s.counts.sum : Nat) : K) := by
+    have : 0 < s.counts.sum := Nat.pos_of_ne_zero hinv.nonempty
+    exact_mod_cast this
+  rw [hQ, hinv.weights, hrow, hc]
+  simp only [List.map_cons, List.length_cons, List.range_succ_eq_map, List.map_map]
+  rw [hD0]
+  have hw0 : (0 : K) < (c0 : K) / ((List.sum (c0 :: rest) : Nat) : K) := by
+    rw [← hc]
+    exact div_pos (by exact_mod_cast hpos) htot
+  apply Q_pos _ _ _ hw0
+  · intro x hx
+    obtain ⟨c, _, rfl⟩ := List.mem_map.mp hx
+    rw [← hc]
+    exact div_nonneg (Nat.cast_nonneg c) htot.le
+  · intro x hx
+    obtain ⟨k, _, rfl⟩ := List.mem_map.mp hx
+    exact hD _ _
+
+/-- non-vacuity with the independent set: population + two consistent iterations run without error and
+end with counts [2, 1, 2] and weights 2/5, 1/5, 2/5 for both sets -/
+example :
+    ((iteration (populate true [(1, (1 : Rat)), (2, 1)] [(11, 1), (12, 1)]) 0 1
+        [(3, 1, [1, 2])] [(1, 3), (2, 1)] [(13, 1, [1, 1/2])] [(11, 1/2), (12, 2)]).toOption.bind
+      (fun s => (iteration s 1 2
+        [(4, 1, [1, 1, 3]), (5, 1, [1, 2, 1])] [(1, 1), (2, 1), (3, 2)]
+        [(14, 1, [1, 1, 1]), (15, 1, [1, 3, 1/4])] [(11, 1), (12, 1), (13, 5)]).toOption)).map
+      (fun s => (s.counts, s.weights, s.train.length, s.iid.length))
+    = some ([2, 1, 2], [2/5, 1/5, 2/5], 5, 5) := by decide +kernel
 
 /-- why old samples must be re-weighted: appending the new density column WITHOUT recomputing `Q`
 leaves a stale meta-proposal density (concrete rational counter-example) -/
